@@ -271,14 +271,6 @@ let ast_mode () =
      done with End_of_file -> ());
   flush stdout
 
-let pyrw_mode () =
-  (try while true do
-       let l = input_line stdin in
-       let s = str_of_field (String.trim l) in
-       print_endline (String.concat "," (List.map (fun c -> string_of_int (int_of_n c)) (py_rewrite s)))
-     done with End_of_file -> ());
-  flush stdout
-
 (* --match: parse with the Coq parser model, then evaluate the extracted executable matcher
    (Engine/Exec.v, proved equivalent to the matching relation) on each haystack.
    line: pattern cps TAB haystack cps ; haystack cps ; ...   *)
@@ -313,7 +305,6 @@ let match_mode dir =
 
 let () =
   if Array.length Sys.argv > 1 && Sys.argv.(1) = "--lines" then (lines_mode (); exit 0);
-  if Array.length Sys.argv > 1 && Sys.argv.(1) = "--pyrw" then (pyrw_mode (); exit 0);
   if Array.length Sys.argv > 2 && Sys.argv.(1) = "--match" then (match_mode Sys.argv.(2); exit 0);
   if Array.length Sys.argv > 2 && Sys.argv.(1) = "--ast" then (ws_table := load_ranges Sys.argv.(2); ast_mode (); exit 0);
   engine_d := load_ranges Sys.argv.(1);
